@@ -301,7 +301,7 @@ impl<T: Qcow2IoOps> Qcow2Dev<T> {
                 let buf = unsafe {
                     std::slice::from_raw_parts_mut(slice.as_mut_ptr(), slice.byte_size())
                 };
-                if let Err(err) = self.call_read(off, buf).await {
+                if let Err(err) = self.call_read_meta(off, buf).await {
                     // Nothing was loaded: don't leave the (zeroed) slice
                     // behind marked as up to date, or its next user takes
                     // all-zero refcounts / mappings for real.
